@@ -240,6 +240,7 @@ def ctag (p name : Bytes) : Bytes := 60 :: 47 :: (pfxB p ++ name)
 without `<` between elements (white space in practice), any number of capability elements with
 arbitrary URIs, optional session-id. -/
 structure Layout where
+  pre : Bytes                  -- before everything: banner / MOTD lines the transport shows first (no `<`)
   decl : Option Bytes          -- text after `<?` up to and including `?>`
   pfx : Bytes                  -- namespace prefix name ([] = none)
   attrs : Bytes                -- between `hello` and `>`
@@ -264,10 +265,14 @@ def sidR (p : Bytes) : Option Bytes → Bytes → Bytes
   | none, _ => []
   | some ds, w => otag p nmSid ++ ds ++ ctag p nmSid ++ w
 
-def render (L : Layout) : Bytes :=
+/-- the hello from its declaration on -/
+def renderCore (L : Layout) : Bytes :=
   declB L.decl ++ L.ws0 ++ (otag L.pfx nmHello ++ L.attrs ++ [62]) ++ L.ws1 ++ otag L.pfx nmCaps ++
     L.ws2 ++ capsR L.pfx L.caps ++ ctag L.pfx nmCaps ++ L.ws3 ++ sidR L.pfx L.sid L.ws4 ++
     ctag L.pfx nmHelloGt
+
+/-- the server's first message: whatever text precedes it on the channel, then the hello -/
+def render (L : Layout) : Bytes := L.pre ++ renderCore L
 
 def noLT (b : Bytes) : Bool := b.all (· != 60)
 
@@ -282,7 +287,7 @@ def Layout.ok (L : Layout) : Bool :=
   (match L.decl with
     | none => true
     | some d => noLT d) &&
-  L.pfx.all isWord && attrsOK L.attrs &&
+  L.pfx.all isWord && attrsOK L.attrs && noLT L.pre &&
   noLT L.ws0 && noLT L.ws1 && noLT L.ws2 && noLT L.ws3 && noLT L.ws4 &&
   L.caps.all (fun c => noLT c.1 && c.1.all (· != LF) && noLT c.2) &&
   (match L.sid with
@@ -291,7 +296,7 @@ def Layout.ok (L : Layout) : Bool :=
 
 /-! ## `Open` -/
 
-inductive Err | timeout | netconf
+inductive Err | timeout | netconf | transport
   deriving DecidableEq, Repr
 
 structure Opened where
@@ -353,6 +358,30 @@ def specOpen (caps : List Bytes) (sid : Option Bytes) (pref ret : Bytes) (q : Li
     match determineVersion caps pref with
     | none => .err .netconf
     | some v => .ok { ver := v, caps := caps, sid := n, sent := clientHello v ++ ret, queue := q }
+
+/-- In-channel SSH authentication (`Channel.AuthenticateSSH`, used by transports that log in
+through the channel: system ssh, or any custom transport that says so) once the last password
+has been written: reads are accumulated until the prompt pattern — for NETCONF the 1.0 delimiter —
+matches the WHOLE accumulated buffer (no search window here); `Channel.Open` then puts that buffer
+back in front of the queue as ONE chunk (`Q.Requeue`). `none` = the reads ran dry first. -/
+def authTail (delimP : Bytes → Bool) (chunks : List Bytes) : Option (List Bytes) :=
+  match readUntil delimP chunks [] with
+  | none => none
+  | some (b, q) => some (b :: q)
+
+/-- `Open` over a transport with in-channel authentication; `chunks` are the reads after the last
+password was sent (a banner shown before the password prompt is discarded by the login loop) -/
+def openSessionAuth (parse : Bytes → Bool × List Bytes × Option Bytes) (delimP : Bytes → Bool)
+    (depth : Nat) (ret : Bytes) (pref : Bytes) (chunks : List Bytes) : Res :=
+  match authTail delimP chunks with
+  | none => .err .timeout
+  | some q => openSession parse delimP depth ret pref q
+
+/-- `sendClientCapabilities` returns the transport's write error: the negotiation result is
+replaced by a failure when the write of the client hello fails -/
+def withWriteFailure (writeFails : Bool) : Res → Res
+  | .ok o => if writeFails then .err .transport else .ok o
+  | r => r
 
 /-! ## what follows `Open`: request framing per selected version (message.serialize + sendRPC) -/
 
